@@ -2,6 +2,7 @@ package main
 
 import (
 	"go/token"
+	"go/types"
 
 	"golang.org/x/tools/go/ssa"
 )
@@ -44,3 +45,25 @@ func (ex *Exec) guardCheck(st *State, addr Term, write bool, pos token.Pos) {
 func (ex *Exec) selectHook(st *State, fr *Frame, x *ssa.Select, out []Term) {}
 
 func (ex *Exec) checkLockPost(st *State, pos token.Pos) {}
+
+// initLocks: mutexes embedded (by value) in a freshly allocated object start unlocked.
+func (ex *Exec) initLocks(st *State, base Term, t types.Type, depth int) {
+	stt, ok := asStruct(t)
+	if !ok || depth > 3 {
+		return
+	}
+	w := ex.w
+	for i := 0; i < stt.NumFields(); i++ {
+		ft := stt.Field(i).Type()
+		if n, ok := types.Unalias(ft).(*types.Named); ok && n.Obj().Pkg() != nil && n.Obj().Pkg().Path() == "sync" &&
+			(n.Obj().Name() == "Mutex" || n.Obj().Name() == "RWMutex") {
+			addr := ex.fieldAddr(base, t, i)
+			ls := w.heapGet(st.heap, "LockState", ArraySort(SRef, SInt))
+			w.heapSet(st.heap, "LockState", Store(ls, addr, IntLit(0)))
+			continue
+		}
+		if _, isStruct := asStruct(ft); isStruct {
+			ex.initLocks(st, ex.fieldAddr(base, t, i), ft, depth+1)
+		}
+	}
+}
